@@ -103,7 +103,7 @@ def showEv : Ev → Option String
   | .listAbort true => some "Wp"
   | .listAbort false => some "Wp!"
   | .parse f st _ _ => some s!"P{showName f.name}@{st.toNat}"
-  | .listIn _ _ _ => none
+  | .listIn _ _ _ _ => none
   | .neg f st _ _ _ _ => some s!"N{showName f.name}@{st.toNat}"
   | .refuse _ => none
 
